@@ -1,4 +1,5 @@
 import Lemmas.EngineFloorStep
+import Lemmas.NumLocksFloor
 /-! C02 — concurrent transactions cannot spend the same funds twice.
 
 Statements are about the `Floor` component of model B (`Model/Engine/Floor.lean`): every event sequence it accepts —
@@ -14,7 +15,15 @@ with all holders (write excludes read and write), queued ones FIFO at every rele
 
 What is proved: in every reachable state every entry added during the run respects the floor against the replay of the
 entries *before it in the log* — the balances read are still the balances at the log position, because nobody else can
-commit on a write-locked account between the read and the persistence. -/
+commit on a write-locked account between the read and the persistence.
+
+Second part (end of the file): the clause the component *assumes* of every commit — "touches only accounts in the
+committer's lock sets, sources write-locked and read" — is proved of `Spec`, the source-level semantics of Numscript,
+for EVERY script, variable map and store: `posting_sources_write_locked`, `posting_accounts_locked`,
+`write_locks_are_read_locks`, `balances_read_are_write_locked`, `posting_sources_were_read`, and
+`spec_commit_passes_lock_guards` / `spec_commit_accepted` which discharge the guards of `Floor.step (.committed …)`
+for a request holding `Spec`'s lock sets.  `checks/c02.py` compares those lock sets (and the postings) with what the real
+`ResolveResources` / VM return, input by input. -/
 namespace C02
 open Engine Engine.Floor
 
@@ -244,5 +253,208 @@ example : (runOn (step noOverdraft) (init [f0]) [.lock 1 ["bob"] ["alice"], .bal
 example : ∃ s, runOn (step noOverdraft) (init [f0]) (serialised ++ [.committed 2 (pay 2 "carol" 20) 2]) = .ok s ∧
     (s.durable ++ s.pending).drop [f0].length = [] ++ ⟨pay 1 "bob" 80, 1⟩ :: [] ++ ⟨pay 2 "carol" 20, 2⟩ :: [] :=
   ⟨_, rfl, rfl⟩
+
+/-! ## the lock sets cover what a script touches — for every script, request and store (`Spec`)
+
+`r.lockWrite` = the accounts in source position of the sends, *as evaluated* (a literal, a variable, a variable read
+from metadata — the way the account is named plays no role), `r.lockRead` = every account literal of the text and the
+value of every variable declared `account`; `world` removed from both (`Model/Numscript/Spec.lean`). -/
+
+/-- **(a)** every posting of an accepted run takes from a write-locked account (`world` apart) -/
+theorem posting_sources_write_locked {P : Num.Script} {req : Num.Request} {store : Num.Store} {r : Num.Result}
+    (h : Num.run P req store = .ok r) : ∀ p ∈ r.postings, p.src ≠ "world" → p.src ∈ r.lockWrite :=
+  fun p hp hw => ((Num.run_postings_locked h p hp).1).resolve_left hw
+
+/-- **(b)** every account a posting touches is locked: the source for writing, the destination at least for reading -/
+theorem posting_accounts_locked {P : Num.Script} {req : Num.Request} {store : Num.Store} {r : Num.Result}
+    (h : Num.run P req store = .ok r) :
+    ∀ p ∈ r.postings, (p.src = "world" ∨ p.src ∈ r.lockWrite) ∧ (p.dst = "world" ∨ p.dst ∈ r.lockRead) :=
+  Num.run_postings_locked h
+
+/-- the write set is part of the read set (`involvedSources ⊆ involvedAccounts` in the code) … -/
+theorem write_locks_are_read_locks {P : Num.Script} {req : Num.Request} {store : Num.Store} {r : Num.Result}
+    (h : Num.run P req store = .ok r) : ∀ a ∈ r.lockWrite, a ∈ r.lockRead :=
+  Num.run_lockWrite_subset h
+
+/-- … so (b) in the form "each end of a posting is `world` or in one of the two sets" -/
+theorem posting_accounts_in_lock_sets {P : Num.Script} {req : Num.Request} {store : Num.Store} {r : Num.Result}
+    (h : Num.run P req store = .ok r) :
+    ∀ p ∈ r.postings, (p.src = "world" ∨ p.src ∈ r.lockRead ∨ p.src ∈ r.lockWrite) ∧
+      (p.dst = "world" ∨ p.dst ∈ r.lockRead ∨ p.dst ∈ r.lockWrite) := by
+  intro p hp
+  obtain ⟨hs, hd⟩ := Num.run_postings_locked h p hp
+  exact ⟨hs.elim Or.inl (fun x => Or.inr (Or.inr x)), hd.elim Or.inl (fun x => Or.inr (Or.inl x))⟩
+
+/-- `world` is never locked -/
+theorem world_not_locked {P : Num.Script} {req : Num.Request} {store : Num.Store} {r : Num.Result}
+    (h : Num.run P req store = .ok r) : "world" ∉ r.lockRead ∧ "world" ∉ r.lockWrite := by
+  obtain ⟨env, F, _, _, _, hR, hW, _⟩ := Num.run_inv_locks h
+  rw [hR, hW]
+  exact ⟨fun hm => (Num.mem_lockRead.mp hm).2 rfl, fun hm => (Num.mem_lockWrite.mp hm).2 rfl⟩
+
+/-- **(c)** every balance the run reads (`finalBal` lists the tracked (account, asset) pairs) belongs to `world`, to a
+write-locked account, or to the target of a `save` statement, which is read-locked; the last kind can only feed a
+posting if the account is also a source of a send — and then it is write-locked by (a) -/
+theorem balances_read_are_write_locked {P : Num.Script} {req : Num.Request} {store : Num.Store} {r : Num.Result}
+    (h : Num.run P req store = .ok r) :
+    ∀ k ∈ r.finalBal, k.1.1 = "world" ∨ k.1.1 ∈ r.lockWrite ∨
+      (k.1.1 ∈ r.lockRead ∧ ∃ env, Num.prepare P req store = .ok env ∧ k.1.1 ∈ P.stmts.flatMap (Num.stmtSaves env)) :=
+  Num.run_balances_locked h
+
+/-- conversely every posting takes from a balance the run has read — and, by (a), under a write lock -/
+theorem posting_sources_were_read {P : Num.Script} {req : Num.Request} {store : Num.Store} {r : Num.Result}
+    (h : Num.run P req store = .ok r) :
+    ∀ p ∈ r.postings, (∃ v, ((p.src, p.asset), v) ∈ r.finalBal) ∧ (p.src ≠ "world" → p.src ∈ r.lockWrite) := by
+  intro p hp
+  refine ⟨?_, posting_sources_write_locked h p hp⟩
+  obtain ⟨k, hk, hk1⟩ := List.mem_map.mp (Num.run_postings_tracked h p hp)
+  exact ⟨k.2, by rw [← hk1]; exact hk⟩
+
+/-! ### … which is what the `Floor` component demands of a commit -/
+
+/-- **the first two guards of `Floor.step (.committed …)` are discharged by `Spec`**: a request `a` that holds exactly
+`Spec`'s lock sets and has recorded a read for every non-`world` balance `Spec` tracks commits the posting list of the
+run: the component does not reject it for lock coverage nor for an unread source — what remains is its floor check
+against the balances read -/
+theorem spec_commit_passes_lock_guards {P : Num.Script} {req : Num.Request} {store : Num.Store} {r : Num.Result}
+    (h : Num.run P req store = .ok r) (grant : Nat → Option Int) (s : S) (a : Nat) (l : LogE) (lt : Int)
+    (hl : l.postings = r.postings.map Num.toEngine)
+    (hh : holdOf s a = some ⟨a, r.lockRead, r.lockWrite⟩)
+    (hreads : ∀ k ∈ r.finalBal, k.1.1 ≠ "world" → (readOf s a k.1.1 k.1.2).isSome = true) :
+    step grant s (.committed a l lt) =
+      if floorOk (grant a) (fun x asset => (readOf s a x asset).getD 0) l.postings
+      then .ok { s with pending := s.pending ++ [⟨l, a⟩], reads := s.reads.filter (·.1 ≠ a) }
+      else .error "floor: the postings overdraw the balances the script was run against" := by
+  have h1 : l.postings.all (fun p => (p.src = "world" || r.lockWrite.contains p.src) &&
+      (p.dst = "world" || r.lockRead.contains p.dst || r.lockWrite.contains p.dst)) = true := by
+    rw [hl, List.all_eq_true]
+    intro q hq
+    obtain ⟨p, hp, rfl⟩ := List.mem_map.mp hq
+    obtain ⟨hs, hd⟩ := Num.run_postings_locked h p hp
+    exact Num.covered_of_locked (a := a) hs hd
+  have h2 : l.postings.all (fun p => p.src = "world" || (readOf s a p.src p.asset).isSome) = true := by
+    rw [hl, List.all_eq_true]
+    intro q hq
+    obtain ⟨p, hp, rfl⟩ := List.mem_map.mp hq
+    by_cases hw : p.src = "world"
+    · simp [Num.toEngine, hw]
+    · obtain ⟨⟨v, hv⟩, _⟩ := posting_sources_were_read h p hp
+      have := hreads _ hv hw
+      simp only [Num.toEngine, Bool.or_eq_true]
+      exact Or.inr this
+  simp only [step, hh, h1, h2, Bool.not_true, Bool.false_eq_true, if_false]
+  split <;> simp_all
+
+/-- **a commit built from a run of `Spec` is accepted by `Floor`** when, in addition, the recorded reads are the
+store's balances (what the run was started on) and the per-request overdraft bound of the component (`grant a`, one
+number per request: the engine scenarios have one bounded source) dominates what the script text grants each of its
+sources (`Num.grants`, per (account, asset); C01's `no_overdraw` is used here) -/
+theorem spec_commit_accepted {P : Num.Script} {req : Num.Request} {store : Num.Store} {r : Num.Result}
+    (h : Num.run P req store = .ok r) (grant : Nat → Option Int) (s : S) (a : Nat) (l : LogE) (lt : Int)
+    (hl : l.postings = r.postings.map Num.toEngine)
+    (hh : holdOf s a = some ⟨a, r.lockRead, r.lockWrite⟩)
+    (hreads : ∀ k ∈ r.finalBal, k.1.1 ≠ "world" → readOf s a k.1.1 k.1.2 = some (store.balance k.1.1 k.1.2))
+    (hgrant : grant a = none ∨ ∃ gg, grant a = some gg ∧ ∀ env, Num.prepare P req store = .ok env →
+      ∀ p ∈ r.postings, p.src ≠ "world" → ∃ gv, Num.grants env P.stmts p.src p.asset = some gv ∧ gv ≤ gg) :
+    step grant s (.committed a l lt) =
+      .ok { s with pending := s.pending ++ [⟨l, a⟩], reads := s.reads.filter (·.1 ≠ a) } := by
+  rw [spec_commit_passes_lock_guards h grant s a l lt hl hh (fun k hk hw => by rw [hreads k hk hw]; rfl)]
+  obtain ⟨env, F, hprep, he, hr⟩ := Num.run_inv h
+  have hfl : Num.FloorOK (Num.grants env P.stmts) store.balance r.postings := by rw [hr]; exact Num.evalStmts_floor he
+  have : floorOk (grant a) (fun x asset => (readOf s a x asset).getD 0) l.postings = true := by
+    rw [hl]
+    refine Num.floorOk_of_FloorOK (Num.grants env P.stmts) (grant a)
+      (fun x A => x ≠ "world" ∧ ∃ v, ((x, A), v) ∈ r.finalBal) r.postings store.balance _ ?_ hfl ?_
+    · rintro x A ⟨hw, v, hv⟩
+      have := hreads _ hv hw
+      simp only at this
+      rw [this]; rfl
+    · intro p hp hw
+      refine ⟨⟨hw, (posting_sources_were_read h p hp).1⟩, ?_⟩
+      rcases hgrant with hn | ⟨gg, hgg, hdom⟩
+      · exact Or.inl hn
+      · obtain ⟨gv, hgv, hle⟩ := hdom env hprep p hp hw
+        exact Or.inr ⟨gv, gg, hgv, hgg, hle⟩
+  rw [this]; rfl
+
+/-! ### non-vacuity: the payout script whose source account is ALSO the value of a variable used as destination
+
+`send [USD 100] (source = @platform:float destination = $seller)  send [USD 5] (source = $seller destination = $fees)`
+with `$fees` resolving to `platform:float` — through the variable map, and through `meta(@platform:config, "fees_account")`.
+In both cases `platform:float` is in the write set although the variable that also designates it is no source. -/
+
+def payoutStmts : List Num.Stmt :=
+  [.send (.mon (.mon (.asset "USD") 100)) (.src (.acct (.acct "platform:float") .none)) (.acct (.var "seller")),
+   .send (.mon (.mon (.asset "USD") 5)) (.src (.acct (.var "seller") .none)) (.acct (.var "fees"))]
+/-- `vars { account $seller  account $fees }` -/
+def payoutVar : Num.Script := { vars := [⟨.account, "seller", .none⟩, ⟨.account, "fees", .none⟩], stmts := payoutStmts }
+/-- `vars { account $seller  account $fees = meta(@platform:config, "fees_account") }` -/
+def payoutMeta : Num.Script :=
+  { vars := [⟨.account, "seller", .none⟩, ⟨.account, "fees", .metaOf (.acct "platform:config") "fees_account"⟩],
+    stmts := payoutStmts }
+def payoutStore : Num.Store :=
+  { balance := fun x _ => if x = "platform:float" then 100 else 0,
+    accountMeta := fun x k => if x = "platform:config" ∧ k = "fees_account" then some "platform:float" else none }
+def payoutEnv : Num.VEnv := [("seller", .acct "sellers:1"), ("fees", .acct "platform:float")]
+
+private theorem valid_seller : Num.validAccount "sellers:1" = true := by
+  simp [Num.validAccount, Num.splitOnC, Num.splitChars, Num.isWordChar]
+private theorem valid_float : Num.validAccount "platform:float" = true := by
+  simp [Num.validAccount, Num.splitOnC, Num.splitChars, Num.isWordChar]
+
+private theorem payoutVar_prepare :
+    Num.prepare payoutVar ⟨[("seller", "sellers:1"), ("fees", "platform:float")], []⟩ payoutStore = .ok payoutEnv := by
+  have hc : Num.check payoutVar = true := by decide
+  unfold Num.prepare
+  rw [hc]
+  simp [Num.bindPlain, payoutVar, Num.parseValue, valid_seller, valid_float, Num.resolveVars, Num.lookupVar, payoutEnv]
+
+private theorem payoutMeta_prepare : Num.prepare payoutMeta ⟨[("seller", "sellers:1")], []⟩ payoutStore = .ok payoutEnv := by
+  have hc : Num.check payoutMeta = true := by decide
+  unfold Num.prepare
+  rw [hc]
+  simp [Num.bindPlain, payoutMeta, Num.parseValue, valid_seller, valid_float, Num.resolveVars, Num.lookupVar, payoutEnv,
+    Num.evalAcct, Num.evalExpr, payoutStore]
+
+/-- literal source + plain variable naming the same account: the run is accepted, `platform:float` is debited 100 and
+credited 5, and it is write-locked -/
+example : ∃ r, Num.run payoutVar ⟨[("seller", "sellers:1"), ("fees", "platform:float")], []⟩ payoutStore = .ok r ∧
+    r.postings = [⟨"platform:float", "sellers:1", 100, "USD"⟩, ⟨"sellers:1", "platform:float", 5, "USD"⟩] ∧
+    r.lockWrite = ["platform:float", "sellers:1"] ∧ r.lockRead = ["platform:float", "sellers:1"] := by
+  unfold Num.run
+  rw [payoutVar_prepare]
+  refine ⟨_, rfl, rfl, ?_, ?_⟩
+  · simp [Num.lockWrite, payoutVar, payoutStmts, Num.vsourceAccts, Num.sourceAccts, Num.evalAcct, Num.evalExpr,
+      Num.lookupVar, payoutEnv, Num.dedupSorted, List.mergeSort]
+  · simp [Num.lockRead, payoutVar, payoutStmts, Num.stmtLits, Num.declLits, Num.exprLits, Num.sourceLits, Num.destLits,
+      Num.lookupVar, payoutEnv, Num.dedupSorted, List.mergeSort]
+
+/-- literal source + variable read from metadata naming the same account -/
+example : ∃ r, Num.run payoutMeta ⟨[("seller", "sellers:1")], []⟩ payoutStore = .ok r ∧
+    r.postings = [⟨"platform:float", "sellers:1", 100, "USD"⟩, ⟨"sellers:1", "platform:float", 5, "USD"⟩] ∧
+    r.lockWrite = ["platform:float", "sellers:1"] ∧ r.lockRead = ["platform:config", "platform:float", "sellers:1"] := by
+  unfold Num.run
+  rw [payoutMeta_prepare]
+  refine ⟨_, rfl, rfl, ?_, ?_⟩
+  · simp [Num.lockWrite, payoutMeta, payoutStmts, Num.vsourceAccts, Num.sourceAccts, Num.evalAcct, Num.evalExpr,
+      Num.lookupVar, payoutEnv, Num.dedupSorted, List.mergeSort]
+  · simp [Num.lockRead, payoutMeta, payoutStmts, Num.stmtLits, Num.declLits, Num.exprLits, Num.sourceLits, Num.destLits,
+      Num.lookupVar, payoutEnv, Num.dedupSorted, List.mergeSort]
+
+/-- the float account funded with 100 -/
+def fFloat : LogE := mk 0 [⟨"world", "platform:float", 100, "USD"⟩]
+def payoutLog : LogE := mk 1 [⟨"platform:float", "sellers:1", 100, "USD"⟩, ⟨"sellers:1", "platform:float", 5, "USD"⟩]
+def verdict (evs : List Ev) : String :=
+  match runOn (step noOverdraft) (init [fFloat]) evs with | .ok _ => "accepted" | .error e => e
+
+/-- the lock sets the seeded change computes for that script (the aliased account only read-locked) are rejected by
+the component at the commit … -/
+example : verdict [.lock 1 ["sellers:1", "platform:float"] ["sellers:1"], .balRead 1 "platform:float" "USD" 100,
+    .balRead 1 "sellers:1" "USD" 0, .committed 1 payoutLog 1] = "floor: a posting touches an account outside the lock sets" := by
+  decide
+/-- … with `Spec`'s lock sets the same commit is accepted -/
+example : verdict [.lock 1 ["platform:float", "sellers:1"] ["platform:float", "sellers:1"],
+    .balRead 1 "platform:float" "USD" 100, .balRead 1 "sellers:1" "USD" 0, .committed 1 payoutLog 1] = "accepted" := by
+  decide
 
 end C02
